@@ -21,7 +21,7 @@ Definition hres_of (r : res (list Z)) : hres :=
 Definition hres_eqb (a b : hres) : bool :=
   match a, b with
   | H x, H y => list_eqb Z.eqb x y
-  | HE x, HE y => x =? y
+  | HE _, HE _ => true       (* which XTypesError is returned is not part of the property *)
   | HP, HP => true
   | _, _ => false
   end.
